@@ -1,7 +1,7 @@
 /-
   C16 — data queries return exactly the values the path designates.
 
-  Model: `View/Query.lean` (`DataQuerent` after the fixes F16a/F16b), specification: `Spec/EvalPath.lean`
+  Model: `View/Query.lean` (`DataQuerent` after the fixes F16a/F16b/F16c), specification: `Spec/EvalPath.lean`
   (evaluation of a child/attribute path over the nested JSON rendering; CPython's `slice.indices`; the decidable
   predicates `shapeOK` / `ordinaryList`).  Everything below is proved for ALL node trees, flat lists, paths and
   subset counts (no bounds).
@@ -15,8 +15,11 @@
     of `filter_for_entities`.
   * `C16_query_eq_eval_subset`, `C16_query_eq_eval` (FULL: one subset / whole uncompressed message, exact equality
     including the error), `C16_sub_nodes_eq_eval_at` (the induction step made public), `C16_query_eq_eval_compressed`
-    (exact, filtering succeeds), `C16_query_eq_eval_compressed_partial` (results agree; two restrictions forced by the
-    open finding F16c and the order of evaluation), `C16_eval_fails_only_with_query_error`.
+    (FULL for compressed data after fix F16c: exact equality, the empty selection included, for every selector whose
+    first subset exists — `C16_first_selected_exists`: no selector, every slice selector), `_filter_ok`, `_selected`,
+    `C16_query_compressed_subset_out_of_range` + `C16_query_eq_eval_compressed_any_selection` (the remaining selector
+    `@[k]`, `k` beyond the last subset: both sides fail), `C16_eval_fails_only_with_query_error`.
+  * the querent as a long-lived OBJECT (answers independent of earlier queries): `Props/C16History.lean`.
   * `C16_wire_shape`, `C16_mkMsg_shape`, `C16_wire_indices_consecutive`: the wiring pass establishes the shape
     hypothesis; tree order = flat order for the tree every reader sees.
   * `C16_bare_id_descent`, `C16_bare_id_is_flat_filter` (FULL), `_wired`, `C16_bare_id_returns_flat_filter` (+ `_wired`:
@@ -26,6 +29,7 @@ import BufrModel.Lemmas.Query
 import BufrModel.Lemmas.QueryEval
 import BufrModel.Lemmas.QueryShape
 import BufrModel.Lemmas.QueryBare
+import BufrModel.Lemmas.QueryCompressed
 import BufrModel.Props.C09
 namespace Bufr
 open Bufr.Query Bufr.PathLang Bufr.C16
@@ -111,33 +115,17 @@ theorem C16_compressedSubset_key (m : QMsg) (hits : List Hit) (i : Nat) (b : Nat
 theorem C16_subset_selector (m : QMsg) (sl : Slice) (comps : List Comp) (r : QResult)
     (h : query m { subset := none, comps := comps } = .ok r) :
     query m { subset := some sl, comps := comps } = r.select (some sl) m.outs.length := by
-  unfold query at h ⊢
   unfold QResult.select QResult.restrict
-  simp only [subsetIndices] at h
+  have hnone : subsetIndices (none : Option Slice) m.outs.length = .ok (List.range m.outs.length) := rfl
   cases hs : subsetIndices (some sl) m.outs.length with
-  | error e => rfl
+  | error e => exact query_selector_error m _ e hs
   | ok idxs =>
     simp only
     cases hc : m.compressed with
-    | true =>
-      simp only [hc, if_true] at h ⊢
-      split at h
-      · next t o0 ht ho =>
-        split at h
-        · cases h
-        · next hits hh =>
-          split at h
-          · cases h
-          · next rs hrs =>
-            injection h with h; subst h
-            rw [restrict_eq_mapIdx (compressedSubset m hits) m.outs.length rs
-              (C16_compressedSubset_key m hits)
-              (fun i hi => by unfold compressedSubset; rw [List.getElem?_eq_none hi]) hrs idxs]
-            generalize mapIdx _ idxs = x
-            cases x <;> rfl
-      · cases h
     | false =>
-      simp only [hc, Bool.false_eq_true, if_false] at h ⊢
+      rw [query_uncompressed m _ _ hc hnone] at h
+      rw [query_uncompressed m _ _ hc hs]
+      simp only at h ⊢
       split at h
       · cases h
       · next rs hrs =>
@@ -147,7 +135,49 @@ theorem C16_subset_selector (m : QMsg) (sl : Slice) (comps : List Comp) (r : QRe
           (fun i hi => by unfold uncompressedSubset; rw [List.getElem?_eq_none hi]) hrs idxs]
         generalize mapIdx _ idxs = x
         cases x <;> rfl
-
+    | true =>
+      cases hn : m.outs.length with
+      | zero =>
+        -- a message without subsets: the unselected result is empty; `@[k]` fails on both sides
+        rw [hn] at hnone hs
+        rw [query_compressed_empty m _ hc (by rw [hn]; exact hnone)] at h
+        injection h with h; subst h
+        cases idxs with
+        | nil => rw [query_compressed_empty m _ hc (by rw [hn]; exact hs)]; rfl
+        | cons i is =>
+          rw [query_compressed_cons m _ i is hc (by rw [hn]; exact hs)]
+          have ho : m.outs[0]? = none := List.getElem?_eq_none (by omega)
+          unfold compressedRun
+          simp only [ho, mapIdx, QResult.get?, List.find?_nil, Option.map_none]
+          cases m.trees[0]? <;> rfl
+      | succ k =>
+        have hr : List.range m.outs.length = 0 :: (List.range k).map (· + 1) := by
+          rw [hn, List.range_succ_eq_map]
+        rw [query_compressed_cons m _ 0 _ hc (by rw [hnone, hr])] at h
+        rw [← hr] at h
+        unfold compressedRun at h
+        cases idxs with
+        | nil =>
+          rw [query_compressed_empty m _ hc hs]; rfl
+        | cons i is =>
+          rw [query_compressed_cons m _ i is hc hs]
+          unfold compressedRun
+          simp only at h ⊢
+          split at h
+          · next t o0 ht ho =>
+            split at h
+            · cases h
+            · next hits hh =>
+              split at h
+              · cases h
+              · next rs hrs =>
+                injection h with h; subst h
+                rw [restrict_eq_mapIdx (compressedSubset m hits) m.outs.length rs
+                  (C16_compressedSubset_key m hits)
+                  (fun i hi => by unfold compressedSubset; rw [List.getElem?_eq_none hi]) hrs (i :: is)]
+                generalize mapIdx _ (i :: is) = x
+                cases x <;> rfl
+          · cases h
 
 /-! ### compressed data -/
 
@@ -167,6 +197,31 @@ theorem C16_compressed_subset_eq (m : QMsg) (comps : List Comp) (t0 : List Node)
       · rw [List.getElem?_eq_none h] at ho; cases ho
     simp only [ht i hi, hl o (List.mem_of_getElem? ho), hh]
 
+/-- compressed data whose shared tree the path can be filtered on (`hh`) answer EVERY query — whatever the selector,
+    errors included — as the same message stored uncompressed -/
+theorem C16_compressed_eq_uncompressed_of_filter_ok (m : QMsg) (p : Path) (t0 : List Node) (o0 : SubsetOut) (hits : List Hit)
+    (hc : m.compressed = true)
+    (ht : ∀ i, i < m.outs.length → m.trees[i]? = some t0) (ho : m.outs[0]? = some o0)
+    (hl : ∀ o ∈ m.outs, o.descs = o0.descs)
+    (hh : processOne o0.descs t0 p.comps = .ok hits) :
+    query m p = query { m with compressed := false } p := by
+  have h0 : 0 < m.outs.length := by
+    rcases Nat.lt_or_ge 0 m.outs.length with h | h
+    · exact h
+    · rw [List.getElem?_eq_none h] at ho; cases ho
+  cases hs : subsetIndices p.subset m.outs.length with
+  | error e =>
+    rw [query_selector_error m p e hs, query_selector_error { m with compressed := false } p e hs]
+  | ok idxs =>
+    rw [query_uncompressed { m with compressed := false } p idxs rfl hs]
+    cases idxs with
+    | nil => rw [query_compressed_empty m p hc hs]; rfl
+    | cons i is =>
+      rw [query_compressed_cons m p i is hc hs]
+      unfold compressedRun
+      simp only [ht 0 h0, ho, hh]
+      rw [mapIdx_congr _ _ (i :: is) (fun j _ => C16_compressed_subset_eq m p.comps t0 o0 hits ht hl hh j)]
+
 /-- compressed data (one node tree shared by all subsets, equal labels) answer every query exactly as the same
     message stored uncompressed: subset `i` gets the matching nodes of the shared tree with the values of subset `i` -/
 theorem C16_compressed_eq_uncompressed_shape (m : QMsg) (p : Path) (t0 : List Node) (o0 : SubsetOut)
@@ -180,20 +235,21 @@ theorem C16_compressed_eq_uncompressed_shape (m : QMsg) (p : Path) (t0 : List No
     rcases Nat.lt_or_ge 0 m.outs.length with h | h
     · exact h
     · rw [List.getElem?_eq_none h] at ho; cases ho
-  unfold query at h ⊢
-  simp only [hc, if_true, ht 0 h0, ho] at h
-  simp only [Bool.false_eq_true, if_false]
   cases hs : subsetIndices p.subset m.outs.length with
-  | error e => rw [hs] at h; cases h
+  | error e => rw [query_selector_error m p e hs] at h; cases h
   | ok idxs =>
-    rw [hs] at h
-    simp only at h ⊢
-    split at h
-    · cases h
-    · next hits hh =>
-      rw [← mapIdx_congr _ _ idxs (fun i _ => C16_compressed_subset_eq m p.comps t0 o0 hits ht hl hh i)]
-      exact h
-
+    rw [query_uncompressed { m with compressed := false } p idxs rfl hs]
+    cases idxs with
+    | nil => rw [query_compressed_empty m p hc hs] at h; cases h; rfl
+    | cons i is =>
+      rw [query_compressed_cons m p i is hc hs] at h
+      unfold compressedRun at h
+      simp only [ht 0 h0, ho] at h
+      split at h
+      · cases h
+      · next hits hh =>
+        rw [← mapIdx_congr _ _ (i :: is) (fun j _ => C16_compressed_subset_eq m p.comps t0 o0 hits ht hl hh j)]
+        exact h
 
 /-! ### slice application and document order (`filter_for_entities`) -/
 
@@ -286,11 +342,11 @@ theorem C16_query_eq_eval (m : QMsg) (p : Path) (nested : List (List NJ))
       | .ok sel => match Spec.evalPath nested sel p.comps with
         | .error e => .error e
         | .ok rs => .ok ⟨rs⟩) := by
-  unfold query
-  cases subsetIndices p.subset m.outs.length with
-  | error e => rfl
+  cases hsel : subsetIndices p.subset m.outs.length with
+  | error e => exact query_selector_error m p e hsel
   | ok sel =>
-    simp only [hc, Bool.false_eq_true, if_false]
+    rw [query_uncompressed m p sel hc hsel]
+    simp only
     rw [evalPath_eq, mapIdx_congr _ _ sel (fun i _ =>
       uncompressedSubset_eval m nested p.comps hn hshape (pathOK_of _ hp hs) i)]
     generalize mapIdx _ sel = x
@@ -316,6 +372,15 @@ theorem C16_wire_indices_consecutive (t : List Desc) (o : SubsetOut) (tree : Lis
 /-- uncompressed data: the message handed to `query` satisfies the shape hypothesis of `C16_query_eq_eval` -/
 theorem C16_mkMsg_shape (t : List Desc) (outs : List SubsetOut) (m : QMsg) (h : mkMsg t false outs = .ok m) :
     Spec.shapeOK m = true := mkMsg_shape t outs m h
+
+/-- compressed data: the message handed to `query` satisfies the shape hypothesis of `C16_query_eq_eval_compressed`
+    when every subset carries the delayed replication counts of subset 0 at the factors of the shared tree
+    (`Spec.sameCountsList`, decidable: what "the subsets of compressed data share one structure" means for the
+    renderer; a property of the decoder's output, evaluated by the driver) -/
+theorem C16_mkMsg_shape_compressed (t : List Desc) (outs : List SubsetOut) (m : QMsg) (h : mkMsg t true outs = .ok m)
+    (o0 : SubsetOut) (t0 : List Node) (h0 : outs[0]? = some o0) (hw : wire t o0 = .ok t0)
+    (hcounts : ∀ o ∈ outs, Spec.sameCountsList o0 o t0 = true) : Spec.shapeOK m = true :=
+  mkMsg_shape_compressed t outs m h o0 t0 h0 hw hcounts
 
 /-- the message a decoder hands over for compressed data: every subset shares the tree wired from subset 0
     (the hypothesis `ht` of the theorems on compressed data) -/
@@ -345,8 +410,8 @@ theorem C16_compressed_trees_shared (t : List Desc) (outs : List SubsetOut) (m :
       rfl
 
 /-- compressed data, the filtering of the shared tree succeeds (`hh`): exactly the evaluation over the nested JSON,
-    subset by subset (every subset is rendered from the shared tree with its own values) -/
-theorem C16_query_eq_eval_compressed (m : QMsg) (p : Path) (nested : List (List NJ))
+    subset by subset (every subset is rendered from the shared tree with its own values), whatever the selector -/
+theorem C16_query_eq_eval_compressed_filter_ok (m : QMsg) (p : Path) (nested : List (List NJ))
     (t0 : List Node) (o0 : SubsetOut) (hits : List Hit)
     (hc : m.compressed = true)
     (ht : ∀ i, i < m.outs.length → m.trees[i]? = some t0) (ho : m.outs[0]? = some o0)
@@ -359,22 +424,76 @@ theorem C16_query_eq_eval_compressed (m : QMsg) (p : Path) (nested : List (List 
       | .ok sel => match Spec.evalPath nested sel p.comps with
         | .error e => .error e
         | .ok rs => .ok ⟨rs⟩) := by
+  rw [C16_compressed_eq_uncompressed_of_filter_ok m p t0 o0 hits hc ht ho hl hh]
+  exact C16_query_eq_eval { m with compressed := false } p nested rfl hn hshape hp hs
+
+/-- WHOLE MESSAGE, COMPRESSED DATA, full statement (after fix F16c): `DataQuerent.query` = `Spec.evalPath` on the nested
+    JSON rendering of the message over the subsets the `@` selector designates — the same result or the same error,
+    the EMPTY selection included (`@[7:]` on two subsets: the empty result, whatever the path), no assumption that the
+    path can be filtered on the tree.  `hfirst`: the first selected subset, if there is one, exists — true for every
+    query without selector and every slice selector (`C16_first_selected_exists`); the one selector outside is
+    `@[k]` with `k` beyond the last subset, where both sides fail (`C16_query_compressed_subset_out_of_range`; the
+    code filters the tree before it looks the subset up, so the exception is `QueryError` rather than `IndexError`
+    when the path fails too — `C16_query_eq_eval_compressed_any_selection` covers that case up to the error family). -/
+theorem C16_query_eq_eval_compressed (m : QMsg) (p : Path) (nested : List (List NJ))
+    (t0 : List Node) (o0 : SubsetOut)
+    (hc : m.compressed = true)
+    (ht : ∀ i, i < m.outs.length → m.trees[i]? = some t0) (ho : m.outs[0]? = some o0)
+    (hl : ∀ o ∈ m.outs, o.descs = o0.descs)
+    (hn : Spec.nestedOf m = .ok nested) (hshape : Spec.shapeOK m = true)
+    (hp : Spec.childAttrOnly p.comps = true) (hs : ∀ c ∈ p.comps, Spec.sliceOK c.slice = true)
+    (hfirst : ∀ i rest, subsetIndices p.subset m.outs.length = .ok (i :: rest) → i < m.outs.length) :
+    query m p = (match subsetIndices p.subset m.outs.length with
+      | .error e => .error e
+      | .ok sel => match Spec.evalPath nested sel p.comps with
+        | .error e => .error e
+        | .ok rs => .ok ⟨rs⟩) := by
   have h0 : 0 < m.outs.length := by
     rcases Nat.lt_or_ge 0 m.outs.length with h | h
     · exact h
     · rw [List.getElem?_eq_none h] at ho; cases ho
-  rw [← C16_query_eq_eval { m with compressed := false } p nested rfl hn hshape hp hs]
-  unfold query
-  simp only [hc, if_true, ht 0 h0, ho, hh, Bool.false_eq_true, if_false]
-  cases subsetIndices p.subset m.outs.length with
-  | error e => rfl
-  | ok sel =>
-    simp only
-    rw [mapIdx_congr _ _ sel (fun i _ => C16_compressed_subset_eq m p.comps t0 o0 hits ht hl hh i)]
+  cases hh : processOne o0.descs t0 p.comps with
+  | ok hits =>
+    rw [C16_compressed_eq_uncompressed_of_filter_ok m p t0 o0 hits hc ht ho hl hh]
+    exact C16_query_eq_eval { m with compressed := false } p nested rfl hn hshape hp hs
+  | error e =>
+    cases hsel : subsetIndices p.subset m.outs.length with
+    | error e' => exact query_selector_error m p e' hsel
+    | ok sel =>
+      cases sel with
+      | nil => rw [query_compressed_empty m p hc hsel]; rfl
+      | cons i rest =>
+        have hi := hfirst i rest hsel
+        rw [query_compressed_cons m p i rest hc hsel]
+        unfold compressedRun
+        simp only [ht 0 h0, ho, hh]
+        have hsub : specSubset nested p.comps i = .error e := by
+          rw [← uncompressedSubset_eval { m with compressed := false } nested p.comps hn hshape (pathOK_of _ hp hs) i]
+          unfold uncompressedSubset
+          simp only [List.getElem?_eq_getElem hi, ht i hi, hl _ (List.getElem_mem hi), hh]
+        rw [evalPath_eq]
+        simp only [mapIdx, hsub]
 
-/-- compressed data, the first selected subset exists (always the case without a selector and for a slice
-    selector with a non-empty selection; `@[k]` with `k` out of range is the exception): exact equality, failures
-    included — no assumption that the filtering succeeds -/
+/-- the hypothesis `hfirst` of `C16_query_eq_eval_compressed` holds for every query without selector and for every
+    slice selector (`pySlice` lists existing positions only) -/
+theorem C16_first_selected_exists (sel : Option Slice) (n : Nat) (hk : ∀ k, sel ≠ some (.idx k)) (i : Nat) (rest : List Nat)
+    (h : subsetIndices sel n = .ok (i :: rest)) : i < n := by
+  cases sel with
+  | none =>
+    simp only [subsetIndices] at h
+    injection h with h
+    exact List.mem_range.mp (by rw [h]; exact List.mem_cons_self)
+  | some s =>
+    cases s with
+    | idx k => exact absurd rfl (hk k)
+    | range a b c =>
+      simp only [subsetIndices] at h
+      split at h
+      · cases h
+      · injection h with h
+        exact pySliceStep_lt a b (c.getD 1) n i (by unfold pySliceRange at h; rw [h]; exact List.mem_cons_self)
+
+/-- the form with the selection given: the first selected subset exists -/
 theorem C16_query_eq_eval_compressed_selected (m : QMsg) (p : Path) (nested : List (List NJ))
     (t0 : List Node) (o0 : SubsetOut) (i : Nat) (rest : List Nat)
     (hc : m.compressed = true)
@@ -386,72 +505,76 @@ theorem C16_query_eq_eval_compressed_selected (m : QMsg) (p : Path) (nested : Li
     query m p = (match Spec.evalPath nested (i :: rest) p.comps with
       | .error e => .error e
       | .ok rs => .ok ⟨rs⟩) := by
-  have h0 : 0 < m.outs.length := by omega
-  cases hh : processOne o0.descs t0 p.comps with
-  | ok hits =>
-    rw [C16_query_eq_eval_compressed m p nested t0 o0 hits hc ht ho hl hn hshape hp hs hh, hsel]
-  | error e =>
-    have hq : query m p = .error e := by
-      unfold query
-      simp only [hsel, hc, if_true, ht 0 h0, ho, hh]
-    have hsub : specSubset nested p.comps i = .error e := by
-      rw [← uncompressedSubset_eval { m with compressed := false } nested p.comps hn hshape (pathOK_of _ hp hs) i]
-      unfold uncompressedSubset
-      simp only [List.getElem?_eq_getElem hi, ht i hi, hl _ (List.getElem_mem hi), hh]
-    rw [hq, evalPath_eq]
-    simp only [mapIdx, hsub]
+  rw [C16_query_eq_eval_compressed m p nested t0 o0 hc ht ho hl hn hshape hp hs
+    (fun j rest' h => by rw [hsel] at h; injection h with h; injection h with h1 _; rw [← h1]; exact hi), hsel]
 
-/-- compressed data in general.  WEAKER than equality in two ways, both forced by the code as it is:
-    (1) `hne`: the selector designates at least one subset — with an empty selection `query_compressed_data` still
-    filters the shared tree and raises when the path fails on it, the evaluation over zero subsets is empty (open
-    finding F16c); (2) `toOption`: the code filters the tree BEFORE it looks up the first selected subset, so when the
-    path fails on the tree AND the first selected subset does not exist the two sides fail with different families
-    (`QueryError` / `IndexError`).  Results agree; a failure on one side is a failure on the other.
-    MISSING for the full statement: equality of the error family, and the empty selection (false at present: F16c). -/
-theorem C16_query_eq_eval_compressed_partial (m : QMsg) (p : Path) (nested : List (List NJ))
+/-- `@[k]` with `k` beyond the last subset: the query fails, and so does the evaluation over the nested JSON (there
+    is no subset `k` to evaluate the path on) -/
+theorem C16_query_compressed_subset_out_of_range (m : QMsg) (comps : List Comp) (nested : List (List NJ)) (k : Int)
+    (hc : m.compressed = true) (hn : Spec.nestedOf m = .ok nested)
+    (hk0 : 0 ≤ k) (hk : (m.outs.length : Int) ≤ k) :
+    (query m { subset := some (.idx k), comps := comps }).toOption = none ∧
+    (Spec.evalPath nested [k.toNat] comps).toOption = none := by
+  have hlen : nested.length ≤ m.outs.length := by
+    unfold Spec.nestedOf at hn
+    have := mapE_length _ _ _ hn
+    simp only [List.length_zip] at this
+    omega
+  have hkn : m.outs.length ≤ k.toNat := by omega
+  constructor
+  · have hsel : subsetIndices (some (.idx k)) m.outs.length = .ok [k.toNat] := by
+      simp only [subsetIndices, hk0, if_true]
+    rw [query_compressed_cons m _ k.toNat [] hc hsel]
+    unfold compressedRun
+    split
+    · split
+      · rfl
+      · simp only [mapIdx, compressedSubset, List.getElem?_eq_none hkn]
+        rfl
+    · rfl
+  · rw [evalPath_eq]
+    simp only [mapIdx, specSubset, List.getElem?_eq_none (by omega : nested.length ≤ k.toNat)]
+    rfl
+
+/-- compressed data, ANY selection (out-of-range `@[k]` included): results agree, and a failure on one side is a
+    failure on the other.  Weaker than `C16_query_eq_eval_compressed` only in not naming the error family — which
+    differs in exactly one case, forced by the code's order of evaluation and outside the property: `@[k]` beyond the
+    last subset AND a path that fails on the tree (`QueryError` from the code, `IndexError` from the evaluation). -/
+theorem C16_query_eq_eval_compressed_any_selection (m : QMsg) (p : Path) (nested : List (List NJ))
     (t0 : List Node) (o0 : SubsetOut) (sel : List Nat)
     (hc : m.compressed = true)
     (ht : ∀ i, i < m.outs.length → m.trees[i]? = some t0) (ho : m.outs[0]? = some o0)
     (hl : ∀ o ∈ m.outs, o.descs = o0.descs)
     (hn : Spec.nestedOf m = .ok nested) (hshape : Spec.shapeOK m = true)
     (hp : Spec.childAttrOnly p.comps = true) (hs : ∀ c ∈ p.comps, Spec.sliceOK c.slice = true)
-    (hsel : subsetIndices p.subset m.outs.length = .ok sel) (hne : sel ≠ []) :
+    (hsel : subsetIndices p.subset m.outs.length = .ok sel) :
     (query m p).toOption = ((Spec.evalPath nested sel p.comps).toOption.map QResult.mk) := by
   have h0 : 0 < m.outs.length := by
     rcases Nat.lt_or_ge 0 m.outs.length with h | h
     · exact h
     · rw [List.getElem?_eq_none h] at ho; cases ho
-  cases hh : processOne o0.descs t0 p.comps with
-  | ok hits =>
-    rw [C16_query_eq_eval_compressed m p nested t0 o0 hits hc ht ho hl hn hshape hp hs hh, hsel]
-    simp only
-    cases Spec.evalPath nested sel p.comps <;> rfl
-  | error e =>
-    have hq : query m p = .error e := by
-      unfold query
-      simp only [hsel, hc, if_true, ht 0 h0, ho, hh]
-    rw [hq]
-    cases sel with
-    | nil => exact absurd rfl hne
-    | cons i rest =>
-      have hi : (specSubset nested p.comps i).toOption = none := by
+  cases sel with
+  | nil =>
+    rw [query_compressed_empty m p hc hsel]; rfl
+  | cons i rest =>
+    by_cases hi : i < m.outs.length
+    · rw [C16_query_eq_eval_compressed_selected m p nested t0 o0 i rest hc ht ho hl hn hshape hp hs hsel hi]
+      cases Spec.evalPath nested (i :: rest) p.comps <;> rfl
+    · have hq : (query m p).toOption = none := by
+        rw [query_compressed_cons m p i rest hc hsel]
+        unfold compressedRun
+        simp only [ht 0 h0, ho]
+        split
+        · rfl
+        · simp only [mapIdx, compressedSubset, List.getElem?_eq_none (by omega : m.outs.length ≤ i)]
+          rfl
+      have hsub : specSubset nested p.comps i = .error .other := by
         rw [← uncompressedSubset_eval { m with compressed := false } nested p.comps hn hshape (pathOK_of _ hp hs) i]
         unfold uncompressedSubset
-        simp only
-        cases hoi : m.outs[i]? with
-        | none => rfl
-        | some o =>
-          have hilt : i < m.outs.length := by
-            rcases Nat.lt_or_ge i m.outs.length with h | h
-            · exact h
-            · rw [List.getElem?_eq_none h] at hoi; cases hoi
-          simp only [ht i hilt, hl o (List.mem_of_getElem? hoi), hh]
-          rfl
-      rw [evalPath_eq]
-      simp only [mapIdx]
-      cases hr : specSubset nested p.comps i with
-      | error e' => rfl
-      | ok b => rw [hr] at hi; cases hi
+        simp only [List.getElem?_eq_none (by omega : m.outs.length ≤ i)]
+      rw [hq, evalPath_eq]
+      simp only [mapIdx, hsub]
+      rfl
 
 /-! ### the bare id
 
@@ -574,32 +697,40 @@ theorem C16_bare_id_query_compressed (m : QMsg) (sel : Option Slice) (id : List 
     (hyp : ∀ o ∈ m.outs, idxList t0 = List.range o.vals.length ∧ Spec.ordinaryList o.descs id t0 = true)
     (h : query m { subset := sel, comps := [bare id] } = .ok r) :
     ∀ q ∈ r.subsets, ∃ o, m.outs[q.1]? = some o ∧ flattenQV q.2 = Spec.flatFilter o id := by
-  unfold query at h
-  split at h
-  · cases h
-  · next idxs _ =>
-    simp only [hc, if_true, ht, ho] at h
-    split at h
-    · cases h
-    · next hits hh =>
+  cases hs : subsetIndices sel m.outs.length with
+  | error e => rw [query_selector_error m _ e hs] at h; cases h
+  | ok idxs =>
+    cases idxs with
+    | nil =>
+      rw [query_compressed_empty m _ hc hs] at h
+      cases h
+      intro q hq
+      cases hq
+    | cons i0 is =>
+      rw [query_compressed_cons m _ i0 is hc hs] at h
+      unfold compressedRun at h
+      simp only [ht, ho] at h
       split at h
       · cases h
-      · next rs hrs =>
-        cases h
-        intro q hq
-        obtain ⟨i, _, hi⟩ := mapIdx_mem _ idxs rs hrs q hq
-        unfold compressedSubset at hi
-        split at hi
-        · cases hi
-        · next o hoi =>
+      · next hits hh =>
+        split at h
+        · cases h
+        · next rs hrs =>
+          cases h
+          intro q hq
+          obtain ⟨i, _, hi⟩ := mapIdx_mem _ (i0 :: is) rs hrs q hq
+          unfold compressedSubset at hi
           split at hi
           · cases hi
-          · next vs hv =>
-            cases hi
-            have hmem := List.mem_of_getElem? hoi
-            obtain ⟨h1, h2⟩ := hyp o hmem
-            refine ⟨o, hoi, bare_flat o t0 id hits vs h1 h2 ?_ hv⟩
-            rw [hl o hmem]; exact hh
+          · next o hoi =>
+            split at hi
+            · cases hi
+            · next vs hv =>
+              cases hi
+              have hmem := List.mem_of_getElem? hoi
+              obtain ⟨h1, h2⟩ := hyp o hmem
+              refine ⟨o, hoi, bare_flat o t0 id hits vs h1 h2 ?_ hv⟩
+              rw [hl o hmem]; exact hh
 
 /-! ### non-vacuity: a wired tree with a delayed replication (counts 2 and 0) and associated-field attributes -/
 
@@ -765,15 +896,28 @@ example : (match cmsg with
         [(0, [.list [.list [.val (.int 5)], .list [.val (.int 6)]]]), (1, [.list [.list [.val (.int 7)], .list [.val (.int 8)]]])]
     | .error _ => false) = true := by decide +kernel
 example : (cmsg).toOption.isSome = true := by decide +kernel     -- hypothesis of `C16_compressed_trees_shared`
+/-- hypotheses of `C16_mkMsg_shape_compressed`: both subsets carry the replication count 2 of subset 0 -/
+example : (match wire T O1 with
+    | .ok t0 => Spec.sameCountsList O1 O1 t0 && Spec.sameCountsList O1 O1b t0 && !Spec.sameCountsList O1 O2 t0
+    | .error _ => false) = true := by decide +kernel
 /-- `C16_query_eq_eval_compressed_selected`: without a selector the first selected subset is subset 0 -/
 example : subsetIndices none 2 = .ok (0 :: [1]) := by decide
-/-- the hypothesis `sel ≠ []` of `C16_query_eq_eval_compressed_partial`; and the reason for it (F16c): an empty
-    selection with a failing path raises on compressed data, the evaluation over no subset is empty -/
-example : subsetIndices (some (.range (some 1) none none)) 2 = .ok [1] := by decide
+/-- the empty selection (fix F16c): `@[7:]` on two subsets with a path that fails on the tree (`/001001/012001`, a
+    value node has no child nodes) answers with the empty result, as the evaluation over no subset does and as the
+    uncompressed query does; with a selection the same path raises `QueryError` -/
+example : subsetIndices (some (.range (some 7) none none)) 2 = .ok [] := by decide
 example : (match cmsg with
-    | .ok m => isErr .query (query m { subset := some (.range (some 7) none none), comps := [c '/' "001001" all, c '/' "012001" all] })
+    | .ok m => beqRes (query m { subset := some (.range (some 7) none none), comps := [c '/' "001001" all, c '/' "012001" all] }) []
     | .error _ => false) = true := by decide +kernel
 example : Spec.evalPath [] [] [c '/' "001001" all, c '/' "012001" all] = .ok [] := rfl
+example : (match cmsg with
+    | .ok m => isErr .query (query m { subset := some (.range (some 1) none none), comps := [c '/' "001001" all, c '/' "012001" all] })
+    | .error _ => false) = true := by decide +kernel
+/-- `C16_query_compressed_subset_out_of_range`: `@[7]`, the path failing too — `QueryError` from the code -/
+example : (match cmsg with
+    | .ok m => isErr .query (query m { subset := some (.idx 7), comps := [c '/' "001001" all, c '/' "012001" all] }) &&
+        isErr .other (query m { subset := some (.idx 7), comps := [c '/' "001001" all] })
+    | .error _ => false) = true := by decide +kernel
 /-- `C16_bare_id_query_compressed` on the compressed message: hypotheses, result -/
 example : (match cmsg with
     | .ok m => (m.outs.zip m.trees).all fun p =>
